@@ -80,7 +80,13 @@ def run_check(pid: str, tier: str, seed: int, replay: str | None = None) -> int:
         checker = core.leanchecker(pid)
         if not checker["ok"]:
             discharged = []
-    proofs_ok = build["ok"] and audit["ok"] and (checker is None or checker["ok"])
+    # a fact plugin that no longer understands the source leaves a stale Gen module: the theorems are
+    # then about old tables, i.e. the tie to the current source is broken for this property
+    facts_broken = core.broken_facts(pid, models, facts)
+    if facts_broken:
+        discharged = []
+        notes.append(f"fact extraction failed: {facts_broken}")
+    proofs_ok = build["ok"] and audit["ok"] and (checker is None or checker["ok"]) and not facts_broken
 
     # 4./5./6. corpus, correspondence, oracle
     total = core.ShardResult()
@@ -144,7 +150,8 @@ def run_check(pid: str, tier: str, seed: int, replay: str | None = None) -> int:
             violations.append((path, ""))
     elif not proofs_ok:
         path = replay_path(pid, tier, seed, n); n += 1
-        write_json(path, {"property": pid, "kind": "proof-broken",
+        write_json(path, {"property": pid, "kind": "proof-broken" if not facts_broken else "facts-broken",
+                          "fact_extraction_failed": facts_broken,
                           "theorems_not_checking": build["failed"] or sorted(set(audit.get("bad_axioms", {})) | set(audit.get("missing", []))) or names,
                           "broken_files": build["broken_files"], "bad_tokens": audit.get("bad_tokens"),
                           "leanchecker": checker, "log": build["log"][-3000:] + audit.get("log", "")})
